@@ -8,7 +8,7 @@ ROOT = os.path.dirname(os.path.dirname(os.path.abspath(__file__)))
 res = {r["id"]: r for r in json.load(open(os.path.join(ROOT, "seeded", "RESULTS.json")))["results"]}
 print("| id | change | needs | caught by |")
 print("|---|---|---|---|")
-n = own = other = 0
+n = own = other = retired = 0
 for d in sorted(glob.glob(os.path.join(ROOT, "seeded", "C??-?"))):
     sid = os.path.basename(d)
     m = json.load(open(os.path.join(d, "meta.json")))
@@ -18,6 +18,11 @@ for d in sorted(glob.glob(os.path.join(ROOT, "seeded", "C??-?"))):
         if c.get("caught"):
             concrete = any("no-failing-input-found" not in v for v in c.get("violations", []))
             by.append("%s%s" % (pid, "" if concrete else " (structural only)"))
+    if m.get("retired"):
+        retired += 1
+        t = (m.get("title") or "").replace("|", "/")[:150]
+        print("| %s | %s | %s | retired: %s |" % (sid, t, "", m["retired"][:110]))
+        continue
     n += 1
     if any(b.startswith(m["property"]) for b in by):
         own += 1
@@ -27,5 +32,5 @@ for d in sorted(glob.glob(os.path.join(ROOT, "seeded", "C??-?"))):
     need = (m.get("needs") or "").replace("|", "/").replace("\n", " ")[:130]
     print("| %s | %s | %s | %s |" % (sid, t, need, ", ".join(by) if by else "**missed**"))
 print()
-print("%d changes; %d caught by the check of their own property, %d more by another property's check, %d missed."
-      % (n, own, other, n - own - other))
+print("%d changes%s; %d caught by the check of their own property, %d more by another property's check, %d missed."
+      % (n, (" (+%d retired)" % retired) if retired else "", own, other, n - own - other))
